@@ -397,6 +397,13 @@ func cmdCheck(args []string) int {
 				coversConfirmed++
 				newLedger.Obligations = append(newLedger.Obligations, LedgerObl{Name: o.Name, Status: "cover"})
 			case "unsat":
+				if strings.HasSuffix(o.Name, "@sanity") {
+					// the negation of the base obligation is provable: vacuity only if the base obligation was proved as well
+					// (otherwise the base obligation is simply refuted and is reported on its own)
+					if base := byName[strings.TrimSuffix(o.Name, "@sanity")]; base == nil || base.Res.Status != "unsat" {
+						continue
+					}
+				}
 				// contradictory assumptions / unreachable return: everything proved about this function is vacuous
 				fmt.Printf("VACUITY %s: assumptions are contradictory (cover obligation unsat)\n", o.Name)
 				if ledger != nil && ledger.byName[o.Name] != nil {
@@ -453,6 +460,7 @@ func cmdCheck(args []string) int {
 		} else {
 			fmt.Printf("UNDECIDED %s (%s; new obligation in a function that was not complete on the unchanged tree)\n", o.Name, it.Res.Status)
 			undecided = append(undecided, o.Name)
+			claimed-- // not part of the claim: listed under undecided_new, never counted as discharged
 		}
 	}
 	// ledger obligations that vanished
